@@ -4,7 +4,7 @@ from harness.core import Violation, HarnessError, run_hypothesis, dec, exc_key, 
 DESCRIPTION = {
     "level": "fault_enumeration",
     "rule": ("Two sessions (originator, responder) with cryptobox KeyRings are joined through a scripted router (both frameworks, several serializers).  Hypothesis draws the "
-             "keyring layout {default key, per-prefix keys, originator-only / responder-only key halves, mismatching keys, a key for the covering prefix installed on both ends "
+             "keyring layout {default key, per-prefix keys, originator-only / responder-only key halves, several key pairs of one process facing the same peer key (tenants), mismatching keys, a key for the covering prefix installed on both ends "
              "*after* the URIs were first used - messages must then open under the new key with PyNaCl directly, ciphertexts under the superseded key are refused}, URIs/args/kwargs from the JSON domain (bytes, nesting, "
              "unicode) carrying a unique marker (also requests without any argument, whose result still carries it), and the direction {publish->event, call->invocation (exact or prefix registration with the concrete procedure in the invocation details), "
              "yield->result incl. progressive results, error - also with the error URI mapped to an exception class at the caller}.  Fault enumeration in transit: every single-byte "
@@ -57,7 +57,7 @@ def strategy():
     from harness import wampwire as W
     vals = st.lists(W.values, max_size=3)
     kws = st.dictionaries(st.sampled_from(["a", "b", "código", "x1"]), W.values, max_size=3)
-    return st.fixed_dictionaries({"layout": st.sampled_from(["default", "default", "prefix", "halves", "mismatch", "responder-no-codec", "rekey"]),
+    return st.fixed_dictionaries({"layout": st.sampled_from(["default", "default", "prefix", "halves", "mismatch", "responder-no-codec", "rekey", "tenants"]),
                                   "direction": st.sampled_from(["publish", "call", "call-error"]), "args": vals, "kwargs": kws,
                                   "ser": st.sampled_from(["json", "cbor", "msgpack"]), "xor": st.integers(1, 255), "seed": st.integers(0, 1 << 20),
                                   "empty": st.sampled_from([False, False, False, True]),
@@ -94,6 +94,15 @@ def keyrings(layout):
     elif layout == "halves":
         o = KeyRing(default_key=Key(originator_priv=a_priv, responder_pub=b_pub))
         r = KeyRing(default_key=Key(originator_pub=a_pub, responder_priv=b_priv))
+    elif layout == "tenants":
+        # per-prefix keys where several key pairs of this process face the same peer key: another tenant's originator pair (c) towards the same responder
+        # identity (b), and another responder pair (c) trusted for the same originator (a) - each created before the pair under test
+        o, r = KeyRing(), KeyRing()
+        o.set_key("com.othertenant.", Key(originator_priv=c_priv, responder_pub=b_pub))
+        o.set_key("com.myapp.", Key(originator_priv=a_priv, responder_pub=b_pub))
+        r.set_key("com.otherservice.", Key(originator_pub=a_pub, responder_priv=c_priv))
+        r.set_key("com.othertenant.", Key(originator_pub=c_pub, responder_priv=b_priv))
+        r.set_key("com.myapp.", Key(originator_pub=a_pub, responder_priv=b_priv))
     else:   # mismatch: the responder holds another originator key
         o = KeyRing(default_key=Key(originator_priv=a_priv, responder_priv=b_priv))
         r = KeyRing(default_key=Key(originator_priv=c_priv, responder_priv=b_priv))
@@ -189,7 +198,7 @@ def check_flow(c, n_xors=1):
         if c.get("empty"):
             args, kwargs = [], {}
         layout = c["layout"]
-        can_decrypt = layout in ("default", "prefix", "halves", "rekey")
+        can_decrypt = layout in ("default", "prefix", "halves", "rekey", "tenants")
         if c["direction"] == "publish":
             seen = []
             # one or several handlers attached to the same subscription (the router hands out one id per topic): each of them is an application handler
